@@ -1,5 +1,5 @@
-(* Evaluator-driven networks with Property::reset(): the state conditions of the one-pass theorem (LSC, LSND, LREG) are kept when a
-   lazily bound property is reset; the destroyed binding leaves the registry, so it is never evaluated again. *)
+(* Evaluator-driven networks with Property::reset() and destruction of unread properties: the state conditions of the one-pass
+   theorem (LSC, LSND, LREG) are kept; the destroyed binding leaves the registry, so it is never evaluated again. *)
 From KDB Require Import Util UtilProofs PropDefs PropFlags PropLink PropLinkBasics PropLinkOps PropLinkTheorems PropSim PropGrow PropSimLazy PropGrowLazy PropGrowMore.
 From KDB Require PropAbs PropAbsProofs PropAbsLazy PropProofs PropCheck.
 Module L := PropAbsLazy.
@@ -91,6 +91,48 @@ Section MoreLazy.
     - destruct HC as [_ HC]. apply IH; [exact HC|exact HE].
   Qed.
 
+  (* the registry invariant after a binding b (whose property was p) died: the registry of ev is a filtered copy of the old one,
+     b has no target any more, p is not lazily bound any more, nothing else changed *)
+  Lemma LREG_filtered w w' b p (f : nat * nat -> bool) :
+    pinv w -> LREG w ->
+    (forall b', lz w' b' = if Nat.eqb b' b then None else lz w b') ->
+    (forall q, lz_of w' q = if Nat.eqb q p then None else lz_of w q) ->
+    nth_error (w_evps w') ev = option_map (fun st => {| ep_registry := filter f (ep_registry st); ep_next := ep_next st |}) (nth_error (w_evps w) ev) ->
+    length (w_binds w') = length (w_binds w) ->
+    (forall q, q <> p -> lookup (w_props w) q <> None -> lookup (w_props w') q <> None) ->
+    (forall b', b' <> b -> lz w b' <> Some p) ->
+    LREG w'.
+  Proof.
+    intros Hinv HR LZ LO Hev' Hlen HP Honly. unfold PropGrowLazy.LREG in *. rewrite Hev'.
+    destruct (nth_error (w_evps w) ev) as [st|] eqn:Hst; [|exact I]. cbn [option_map ep_registry].
+    destruct HR as (ND & HC & HB & HE).
+    assert (HLZ : forall b', lz w' b' = None \/ lz w' b' = lz w b') by (intros b'; rewrite LZ; destruct (Nat.eqb b' b); auto).
+    pose proof (regs_sub w w' f HLZ (ep_registry st)) as HSub.
+    assert (Hnp : forall q, In q (regs_of w' (filter f (ep_registry st))) -> q <> p).
+    { intros q Hq ->. destruct (regs_of_In _ _ _ Hq) as (rb & _ & Hz). rewrite LZ in Hz. destruct (Nat.eqb_spec (snd rb) b) as [|Hne]; [discriminate Hz|].
+      exact (Honly _ Hne Hz). }
+    split; [exact (Sub_NoDup _ _ HSub ND)|]. split; [|split].
+    - apply (lchain_sub w w' _ _ HSub HC). intros q Hq. rewrite LO. destruct (Nat.eqb_spec q p) as [->|]; [exfalso; exact (Hnp p Hq eq_refl)|reflexivity].
+    - intros rb Hi. apply filter_In in Hi. destruct Hi as [Hi _]. rewrite Hlen. auto.
+    - intros q Hq. apply HP; [exact (Hnp q Hq)|]. exact (HE q (Sub_In _ _ HSub q Hq)).
+  Qed.
+
+  (* the registry of ev after ~Binding of a binding x of any evaluator *)
+  Lemma evps_after_destroy (evps : list evpriv) x :
+    exists f : nat * nat -> bool,
+      nth_error (match nth_error evps (b_evp x) with
+                 | Some ep => upd evps (b_evp x) {| ep_registry := filter (fun q => negb (Nat.eqb (fst q) (b_regid x))) (ep_registry ep); ep_next := ep_next ep |}
+                 | None => evps end) ev =
+      option_map (fun st => {| ep_registry := filter f (ep_registry st); ep_next := ep_next st |}) (nth_error evps ev).
+  Proof.
+    assert (Ef : forall l : list (nat * nat), filter (fun _ => true) l = l) by (induction l as [|a l IH]; cbn; [reflexivity|rewrite IH; reflexivity]).
+    destruct (nth_error evps (b_evp x)) as [ep0|] eqn:He0.
+    - destruct (Nat.eq_dec (b_evp x) ev) as [E|Hne].
+      + exists (fun q => negb (Nat.eqb (fst q) (b_regid x))). rewrite <- E, He0. rewrite nth_upd_same by (apply nth_error_Some; congruence). reflexivity.
+      + exists (fun _ => true). rewrite nth_upd_other by exact Hne. destruct (nth_error evps ev) as [[rg nx]|]; [|reflexivity]. cbn [option_map ep_registry ep_next]. rewrite Ef. reflexivity.
+    - exists (fun _ => true). destruct (nth_error evps ev) as [[rg nx]|]; [|reflexivity]. cbn [option_map ep_registry ep_next]. rewrite Ef. reflexivity.
+  Qed.
+
   (* ---- Property::reset() of a property bound through the evaluator ---- *)
   Lemma lazy_grow_reset fuel w p w' :
     LSC w -> LSND w -> LREG w -> step1 fn rtl fuel w (PReset p) = (w', None) -> LSC w' /\ LSND w' /\ LREG w'.
@@ -130,31 +172,14 @@ Section MoreLazy.
         destruct (Nat.eqb_spec q p) as [->|]; [inversion Hq; subst prq; exact (R1 _ _ Hp)|auto].
       + intros q. cbn [L.ltr]. rewrite LO. destruct (Nat.eqb q p); [reflexivity|apply R2].
       + intros q t Ht. cbn [L.ltr L.lenv] in *. destruct (Nat.eqb q p); [discriminate Ht|eauto].
-    - unfold PropGrowLazy.LREG in *. change (w_evps w') with (w_evps w2).
-      (* the registry of ev: filtered if the dead binding belonged to ev, untouched if it belonged to another evaluator *)
-      assert (Hev' : exists f : nat * nat -> bool, nth_error (w_evps w2) ev =
-                 option_map (fun st => {| ep_registry := filter f (ep_registry st); ep_next := ep_next st |}) (nth_error (w_evps w) ev)).
-      { rewrite Ev2. destruct (nth_error (w_evps w) (b_evp x)) as [ep0|] eqn:He0.
-        - destruct (Nat.eq_dec (b_evp x) ev) as [E|Hne].
-          + exists (fun q => negb (Nat.eqb (fst q) (b_regid x))). rewrite <- E, He0. rewrite nth_upd_same by (apply nth_error_Some; congruence). reflexivity.
-          + exists (fun _ => true). rewrite nth_upd_other by exact Hne. destruct (nth_error (w_evps w) ev) as [[rg nx]|]; [|reflexivity]. cbn [option_map ep_registry ep_next].
-            assert (Ef : forall l : list (nat * nat), filter (fun _ => true) l = l) by (induction l as [|a l IH]; cbn; [reflexivity|rewrite IH; reflexivity]). rewrite Ef. reflexivity.
-        - exists (fun _ => true). destruct (nth_error (w_evps w) ev) as [[rg nx]|]; [|reflexivity]. cbn [option_map ep_registry ep_next].
-          assert (Ef : forall l : list (nat * nat), filter (fun _ => true) l = l) by (induction l as [|a l IH]; cbn; [reflexivity|rewrite IH; reflexivity]). rewrite Ef. reflexivity. }
-      destruct Hev' as (f & Hev'). rewrite Hev'.
-      destruct (nth_error (w_evps w) ev) as [st|] eqn:Hst; [|exact I]. cbn [option_map ep_registry].
-      destruct HR as (ND & HC & HB & HE).
-      assert (HLZ : forall b', lz w' b' = None \/ lz w' b' = lz w b') by (intros b'; rewrite LZ; destruct (Nat.eqb b' b); auto).
-      pose proof (regs_sub w w' f HLZ (ep_registry st)) as HSub.
-      assert (Hnp : forall q, In q (regs_of w' (filter f (ep_registry st))) -> q <> p).
-      { intros q Hq ->. destruct (regs_of_In _ _ _ Hq) as (rb & _ & Hz). rewrite LZ in Hz. destruct (Nat.eqb_spec (snd rb) b) as [|Hne]; [discriminate Hz|].
-        unfold lz in Hz. destruct (get_bind w (snd rb)) as [x'|] eqn:Hx'; [|discriminate Hz].
-        assert (Eb' : bview w (snd rb) = Some (leaves (b_root x'), Some p)) by (unfold bview; rewrite Hx', Hz; reflexivity).
-        destruct (pi_tgt _ _ _ _ _ _ _ Hinv _ _ _ Eb') as (v & Pv & Uv). rewrite Pq in Pv. inversion Pv; subst v. cbn in Uv. congruence. }
-      split; [exact (Sub_NoDup _ _ HSub ND)|]. split; [|split].
-      + apply (lchain_sub w w' _ _ HSub HC). intros q Hq. rewrite LO. destruct (Nat.eqb_spec q p) as [->|]; [exfalso; exact (Hnp p Hq eq_refl)|reflexivity].
-      + intros rb Hi. apply filter_In in Hi. destruct Hi as [Hi _]. change (w_binds w') with (w_binds w2). rewrite Hlen. auto.
-      + intros q Hq. pose proof (HE q (Sub_In _ _ HSub q Hq)) as Hex. unfold w'; cbn [set_props w_props]. rewrite lookup_bind, Hpr. destruct (Nat.eqb q p); [discriminate|exact Hex].
+    - destruct (evps_after_destroy (w_evps w) x) as (f & Hf).
+      apply (LREG_filtered w w' b p f Hinv HR LZ LO).
+      + change (w_evps w') with (w_evps w2). rewrite Ev2. exact Hf.
+      + change (w_binds w') with (w_binds w2). exact Hlen.
+      + intros q Hq Hex. unfold w'; cbn [set_props w_props]. rewrite lookup_bind, Hpr. destruct (Nat.eqb q p); [discriminate|exact Hex].
+      + intros b' Hne Hz. unfold lz in Hz. destruct (get_bind w b') as [x'|] eqn:Hx'; [|discriminate Hz].
+        assert (Eb' : bview w b' = Some (leaves (b_root x'), Some p)) by (unfold bview; rewrite Hx', Hz; reflexivity).
+        destruct (pi_tgt _ _ _ _ _ _ _ Hinv _ _ _ Eb') as (v & Pv & Uv). rewrite Pq in Pv. inversion Pv; subst v. cbn in Uv. congruence.
   Qed.
 
   (* ... and the reset binding is never evaluated again: it is not in the registry evaluateAll iterates *)
@@ -177,16 +202,93 @@ Section MoreLazy.
     unfold pview in Pv; cbn [set_props w_props] in Pv. rewrite lookup_bind_same in Pv. inversion Pv; subst v. cbn in Uv. discriminate Uv.
   Qed.
 
+  (* ---- ~Property of a property that no binding reads (bound through an evaluator, or unbound) ---- *)
+  Lemma lazy_grow_del fuel w p w' :
+    LSC w -> LSND w -> LREG w -> (forall b lf, has_leaf w b lf -> lf_tg lf <> Some p) ->
+    step1 fn rtl fuel w (PDel p) = (w', None) -> LSC w' /\ LSND w' /\ LREG w'.
+  Proof.
+    intros HSC HSN HR Hnr H. pose proof HSC as (Hinv & Hna & Hsi & Hal). pose proof HSN as (s & (R1 & R2) & HS).
+    pose proof (destroy_prop_pinv fn rtl fuel w p w' None Hinv H I) as Hinv'.
+    destruct (PropGrowMore.del_shape fn rtl fuel w p w' Hinv Hna Hnr H) as (pr & Hp & Pw & Gw & Sw & Hlen & Hevs).
+    assert (Pq : pview w p = Some (psigs_of pr)) by (unfold pview; rewrite Hp; reflexivity).
+    (* lz and lz_of after the destruction *)
+    assert (Gu : forall bp, pr_updater pr = Some bp -> get_bind w' bp = None /\ exists x, get_bind w bp = Some x /\ b_target x = Some p /\
+                   exists f : nat * nat -> bool, nth_error (w_evps w') ev =
+                     option_map (fun st => {| ep_registry := filter f (ep_registry st); ep_next := ep_next st |}) (nth_error (w_evps w) ev)).
+    { intros bp Hu. rewrite Hu in Hevs. destruct Hevs as (w1 & E1 & G1 & Ev & Gb).
+      destruct (pi_upd _ _ _ _ _ _ _ Hinv _ _ _ Pq Hu (fun z => z)) as (lsb & Ebw).
+      destruct (get_bind w bp) as [x|] eqn:Hbx; [|unfold bview in Ebw; rewrite Hbx in Ebw; discriminate Ebw].
+      assert (Htx : b_target x = Some p) by (unfold bview in Ebw; rewrite Hbx in Ebw; congruence).
+      destruct (destroy_binding w1 bp) as [w2 e2] eqn:Hd. cbn [fst] in Ev, Gb.
+      destruct (destroy_shape w1 bp x w2 e2 G1 Hd) as (Ev2 & _ & Gb2).
+      split; [rewrite Gb; exact Gb2|]. exists x. split; [reflexivity|]. split; [exact Htx|].
+      destruct (evps_after_destroy (w_evps w) x) as (f & Hf). exists f. rewrite Ev, Ev2, E1. exact Hf. }
+    assert (LZ : forall b', lz w' b' = if opt_eqb Nat.eqb (pr_updater pr) (Some b') then None else lz w b').
+    { intros b'. unfold lz. destruct (pr_updater pr) as [bp|] eqn:Hu; cbn [opt_eqb].
+      - destruct (Nat.eqb_spec bp b') as [<-|Hne]; [destruct (Gu bp eq_refl) as [E _]; rewrite E; reflexivity|rewrite Gw by congruence; reflexivity].
+      - rewrite Gw by discriminate. reflexivity. }
+    assert (LO : forall q, lz_of w' q = if Nat.eqb q p then None else lz_of w q).
+    { intros q. unfold lz_of. rewrite Pw. destruct (Nat.eqb_spec q p) as [->|Hne]; [rewrite lookup_remove_same; reflexivity|].
+      rewrite lookup_remove_other by exact Hne. destruct (lookup (w_props w) q) as [pr'|] eqn:Hq; [|reflexivity]. destruct (pr_updater pr') as [b'|] eqn:Hu'; [|reflexivity].
+      rewrite Gw; [reflexivity|]. intros Hb.
+      assert (Pq' : pview w q = Some (psigs_of pr')) by (unfold pview; rewrite Hq; reflexivity).
+      destruct (pi_upd _ _ _ _ _ _ _ Hinv _ _ _ Pq' Hu' (fun z => z)) as (ls & Eb).
+      destruct (pi_upd _ _ _ _ _ _ _ Hinv _ _ _ Pq Hb (fun z => z)) as (ls' & Eb'). rewrite Eb in Eb'. inversion Eb'. contradiction. }
+    assert (HSC' : LSC w').
+    { split; [exact Hinv'|]. split; [|split].
+      - intros t pos ser label act Hs. eapply Hna. apply Sw. exact Hs.
+      - intros q x0 Hx. rewrite LO in Hx. destruct (Nat.eqb q p); [discriminate Hx|eauto].
+      - split; [exact (proj1 Hal)|]. intros b' x0 Hx. destruct (pr_updater pr) as [bp|] eqn:Hu.
+        + destruct (Nat.eq_dec b' bp) as [->|Hne]; [destruct (Gu bp eq_refl) as [E _]; rewrite E in Hx; discriminate Hx|].
+          rewrite Gw in Hx by congruence. exact (proj2 Hal _ _ Hx).
+        + rewrite Gw in Hx by discriminate. exact (proj2 Hal _ _ Hx). }
+    split; [exact HSC'|]. split.
+    - exists {| L.lenv := L.lenv s; L.ltr := fun q => if Nat.eqb q p then None else L.ltr s q |}. split; [split|].
+      + intros q prq Hq. rewrite Pw in Hq. cbn [L.lenv]. destruct (Nat.eq_dec q p) as [->|Hne]; [rewrite lookup_remove_same in Hq; discriminate Hq|].
+        rewrite lookup_remove_other in Hq by exact Hne. auto.
+      + intros q. cbn [L.ltr]. rewrite LO. destruct (Nat.eqb q p); [reflexivity|apply R2].
+      + intros q t Ht. cbn [L.ltr L.lenv] in *. destruct (Nat.eqb q p); [discriminate Ht|eauto].
+    - assert (HPx : forall q, q <> p -> lookup (w_props w) q <> None -> lookup (w_props w') q <> None).
+      { intros q Hq Hex. rewrite Pw, lookup_remove_other by exact Hq. exact Hex. }
+      destruct (pr_updater pr) as [bp|] eqn:Hu.
+      + destruct (Gu bp eq_refl) as (_ & x & Hbx & Htx & f & Hf).
+        apply (LREG_filtered w w' bp p f Hinv HR).
+        * intros b'. rewrite LZ. cbn [opt_eqb]. rewrite (Nat.eqb_sym b' bp). reflexivity.
+        * exact LO.
+        * exact Hf.
+        * exact Hlen.
+        * exact HPx.
+        * intros b' Hne Hz. unfold lz in Hz. destruct (get_bind w b') as [x'|] eqn:Hx'; [|discriminate Hz].
+          assert (Eb' : bview w b' = Some (leaves (b_root x'), Some p)) by (unfold bview; rewrite Hx', Hz; reflexivity).
+          destruct (pi_tgt _ _ _ _ _ _ _ Hinv _ _ _ Eb') as (v & Pv & Uv). rewrite Pq in Pv. inversion Pv; subst v. cbn in Uv. congruence.
+      + (* an unbound property: the registry and every binding are as before; p was nobody's target *)
+        assert (Ef : forall l : list (nat * nat), filter (fun _ => true) l = l) by (induction l as [|a l IH]; cbn; [reflexivity|rewrite IH; reflexivity]).
+        apply (LREG_filtered w w' (length (w_binds w)) p (fun _ => true) Hinv HR).
+        * intros b'. rewrite LZ. cbn [opt_eqb]. destruct (Nat.eqb_spec b' (length (w_binds w))) as [->|]; [|reflexivity].
+          unfold lz, get_bind. replace (nth_error (w_binds w) (length (w_binds w))) with (@None binding); [reflexivity|symmetry; apply nth_error_None; lia].
+        * exact LO.
+        * rewrite Hevs. destruct (nth_error (w_evps w) ev) as [[rg nx]|]; [|reflexivity]. cbn [option_map ep_registry ep_next]. rewrite Ef. reflexivity.
+        * exact Hlen.
+        * exact HPx.
+        * intros b' _ Hz. unfold lz in Hz. destruct (get_bind w b') as [x'|] eqn:Hx'; [|discriminate Hz].
+          assert (Eb' : bview w b' = Some (leaves (b_root x'), Some p)) by (unfold bview; rewrite Hx', Hz; reflexivity).
+          destruct (pi_tgt _ _ _ _ _ _ _ Hinv _ _ _ Eb') as (v & Pv & Uv). rewrite Pq in Pv. inversion Pv; subst v. cbn in Uv. congruence.
+  Qed.
+
   (* ---- histories with resets ---- *)
   Definition grow_op_lazy2 (w : world) (o : op) : Prop :=
-    match o with PReset _ => True | _ => PropGrowLazy.grow_op_lazy w o end.
+    match o with
+    | PReset _ => True
+    | PDel p => PropGrowMore.no_reader_b w p = true
+    | _ => PropGrowLazy.grow_op_lazy w o end.
 
   Theorem lazy_grow2_step f w o w' :
     LSC w -> LSND w -> LREG w -> grow_op_lazy2 w o -> step1 fn rtl (S f) w o = (w', None) -> LSC w' /\ LSND w' /\ LREG w'.
   Proof.
     intros HSC HS HR Ho H. destruct o; cbn [grow_op_lazy2] in Ho;
       try (exact (PropGrowLazy.lazy_grow_step fn rtl ev ev_pos f w _ w' HSC HS HR Ho H)).
-    eapply lazy_grow_reset; eauto.
+    - eapply lazy_grow_del; eauto. apply PropGrowMore.no_reader_sound. exact Ho.
+    - eapply lazy_grow_reset; eauto.
   Qed.
 
   Fixpoint lazy_run2_ok (f : nat) (w : world) (ops : list op) : Prop :=
